@@ -95,7 +95,10 @@ End Dict.
 Definition dget (l : list (Z * dval)) (k : Z) : dval := match dict_get l k with Some v => v | None => DNone end.
 Definition xget (l : list (Z * xval)) (k : Z) : xval := match dict_get l k with Some v => v | None => XNone end.
 
-Inductive err := EResource | EType | EValue | EName | EHang.
+(* the three causes of ResourceError: lookup() "does not exist", request() "has already been requested",
+   resolve() "uses physical pin ... already used by ..." *)
+Inductive rcause := RNoSuch | RAgain | RConflict.
+Inductive err := EResource (c : rcause) | EType | EValue | EName | EHang.
 
 (* merge_options, leaf branch *)
 Definition merge_leaf (ld : dirs) (d : dval) (x : xval) : err + (dval * xval) :=
@@ -189,7 +192,7 @@ Definition leaf_finish (nm : Z) (l : leafd) (d : dval) (x : xval) (pth : path) (
   let st1 := add_clock st (pth, if diff then 1 else 0) (l_clock l) in
   let (ph, ok) := claim (phys_reqd st1) (pp ++ nn) pth in
   let st2 := mkSt (requested st1) ph (io_clocks st1) (pins st1) in
-  if negb ok then (st2, inl EResource)
+  if negb ok then (st2, inl (EResource RConflict))
   else match d with
        | DDash => (st2, inr (mkLval nm true pt (mkPin (phys_len (l_phys l)) Dio 0 pth) (l_clock l)))
        | DDir dd =>
@@ -264,9 +267,9 @@ Definition q_key (q : req) : key := (q_name q, q_num q).
 
 Definition request (t : table) (cm : connmap) (st : state) (q : req) : state * result :=
   match tbl_lookup t (q_key q) with
-  | None => (st, Error EResource)                            (* lookup: does not exist *)
+  | None => (st, Error (EResource RNoSuch))                   (* lookup: does not exist *)
   | Some res =>
-    if key_mem (q_key q) (requested st) then (st, Error EResource)   (* already requested *)
+    if key_mem (q_key q) (requested st) then (st, Error (EResource RAgain))   (* already requested *)
     else
       match merge_options res (q_dir q) (q_xdr q) with
       | inl e => (st, Error e)
@@ -337,3 +340,62 @@ Definition port_entries (p : ioport) : list constr :=
   end.
 Definition port_constraints (ports : list ioport) : list constr := concat (map port_entries ports).
 Definition clock_constraints (st : state) : list ((path * Z) * Z) := io_clocks st.
+
+(* ---------------------------------------------------------------- manager construction, build plan *)
+(* ResourceManager.add_resources: NameError when two resources have the same name and number *)
+Fixpoint table_dup (t : table) : bool :=
+  match t with
+  | [] => false
+  | (num, n) :: r => (match tbl_lookup r (node_name n, num) with Some _ => true | None => false end) || table_dup r
+  end.
+
+(* vendor get_io_buffer: which I/O ports of a buffered port reach the design.  io / p always; the n port of a
+   differential pair: Gowin (TLVDS/ELVDS primitives take both pads) always; iCE40 only for outputs (two SB_IO,
+   the input uses SB_LVDS_INPUT on p alone); ECP5 / Nexus never (ILVDS/OLVDS take p only) *)
+Inductive vendor := VIce40 | VEcp5 | VGowin | VNexus.
+Definition vendor_uses_n (v : vendor) (p : port) : bool :=
+  match v with VGowin => true | VIce40 => dirs_eqb (pt_dir p) Do | VEcp5 | VNexus => false end.
+(* .pcf has no attribute syntax; the Apicula .cst carries no clock constraints *)
+Definition vendor_attrs (v : vendor) : bool := match v with VIce40 => false | _ => true end.
+Definition vendor_clocks (v : vendor) : bool := match v with VGowin => false | _ => true end.
+Definition used_ioports (v : vendor) (p : port) : list ioport :=
+  filter (fun io => negb (snd (io_name io) =? 2) || vendor_uses_n v p) (port_ioports p).
+
+Fixpoint zl_eqb (a b : list Z) : bool :=
+  match a, b with [], [] => true | x :: a', y :: b' => (x =? y) && zl_eqb a' b' | _, _ => false end.
+Definition path_eqb (a b : path) : bool := key_eqb (fst a) (fst b) && zl_eqb (snd a) (snd b).
+Fixpoint path_mem (a : path) (l : list path) : bool :=
+  match l with [] => false | b :: r => path_eqb a b || path_mem a r end.
+
+Record plan := mkPlan { pl_constraints : list constr; pl_clocks : list ((path * Z) * Z) }.
+(* Platform.prepare for a design that performs the requests `hist` (refusals caught by the design) and buffers
+   every granted port except those at the paths `unused`: then create_missing_domain("sync") requests
+   default_clk and default_rst (number 0, dir="-") — a refusal there aborts the build — and buffers them;
+   the constraint file lists iter_port_constraints_bits over the design's ports and the port clock constraints
+   (of ALL requested ports, buffered or not). *)
+Definition strip_attrs (c : constr) : constr := mkC (c_port c) (c_bit c) (c_pin c) [].
+Definition build (v : vendor) (t : table) (cm : connmap) (hist : list req) (dclk drst : option Z)
+           (unused : list path) : list (req * result) * (err + plan) :=
+  let acc := run t cm hist in
+  let extra := match dclk with
+               | None => []
+               | Some c => mkReq c 0 DDash XNone :: match drst with Some r => [mkReq r 0 DDash XNone] | None => [] end
+               end in
+  let fix go (ex : list req) (st : state) (vals : list value) : err + (state * list value) :=
+      match ex with
+      | [] => inr (st, vals)
+      | q :: r => match request t cm st q with
+                  | (_, Error e) => inl e
+                  | (st', Ok v) => go r st' (vals ++ [v])
+                  end
+      end in
+  match go extra (fst acc) [] with
+  | inl e => (snd acc, inl e)
+  | inr (st, sysvals) =>
+    let designed := filter (fun l => negb (path_mem (pt_path (lv_port l)) unused))
+                           (concat (map (fun qv => leaves (snd qv)) (granted (snd acc)))) in
+    let buffered := designed ++ concat (map leaves sysvals) in
+    let cs := port_constraints (concat (map (fun l => used_ioports v (lv_port l)) buffered)) in
+    (snd acc, inr (mkPlan (if vendor_attrs v then cs else map strip_attrs cs)
+                          (if vendor_clocks v then clock_constraints st else [])))
+  end.
